@@ -7,6 +7,7 @@ import numpy as np
 
 from . import qc
 from .common import bits, unbits
+from .layouts import LAYOUTS, make_batch, outside_untouched, same_values
 from .qc import torch
 
 FILES = [
@@ -35,9 +36,12 @@ THEOREMS = {
     "weight": "C08_importance_weight",
 }
 RULE = ("case = (state kind pos/cplx/dens, n<=5, h, [a], parameter scale in {0.3,1,2,3}, all weights/biases of both networks = "
-        "scale*N(0,1) (all non-zero), batch); batches: the full basis in index order (the exact-average oracle runs on it) and random "
+        "scale*N(0,1) (all non-zero), batch, memory layout of the batch: contiguous / strided row or column view of a larger buffer / "
+        "transposed); batches: the full basis in index order (the exact-average oracle runs on it) and random "
         "batches with repeated rows; every built-in observable with absolute in {False,True}, c = 0..n+1, both boundary conditions; "
-        "non-trivial iff n >= 2 and all biases non-zero and (kind == pos or the phase network is non-zero); distinct by hash of the case")
+        "non-trivial iff n >= 2 and all biases non-zero and (kind == pos or the phase network is non-zero); distinct by hash of the case; "
+        "history cases: every observable object created once and applied along a sequence (sample tensor overwritten in place, state "
+        "re-parametrised in place, other batch length, longer / shorter chains, other state class, back to the start)")
 
 I2 = np.eye(2, dtype=complex)
 PX = np.array([[0, 1], [1, 0]], dtype=complex)
@@ -98,16 +102,17 @@ def rho_hat(st, kind, n):
     return R / np.trace(R)
 
 
-def impl_apply(obs, st, samples_t):
-    """returns (values as list | {'error': name}, kind of result, mutated?)"""
+def impl_apply(obs, st, samples_t, backing=None, layout=None):
+    """returns (values as list | {'error': name}, kind of result, sample tensor (and the rest of its backing buffer) unchanged?)"""
     before = samples_t.numpy().tobytes()
+    same = lambda: samples_t.numpy().tobytes() == before and outside_untouched(backing, layout)  # noqa: E731
     try:
         r = obs.apply(st, samples_t)
         shape_ok = isinstance(r, torch.Tensor) and tuple(r.shape) == (samples_t.shape[0],) and r.dtype == torch.float64
         vals = r.detach().numpy().astype(np.float64).ravel().tolist()
     except Exception as e:  # noqa: BLE001
-        return {"error": type(e).__name__}, True, samples_t.numpy().tobytes() == before
-    return vals, shape_ok, samples_t.numpy().tobytes() == before
+        return {"error": type(e).__name__}, True, same()
+    return vals, shape_ok, same()
 
 
 def cmp_vals(ctx, name, level, impl, model, case, theorem, sig):
@@ -120,10 +125,11 @@ def cmp_vals(ctx, name, level, impl, model, case, theorem, sig):
         ctx.point(name, level, impl, m, case, scale=max(sc, 1.0), theorem=theorem, sig=sig)
 
 
-def one_case(ctx, kind, n, h, a, scale, am, ph, samples, full, tag=""):
+def one_case(ctx, kind, n, h, a, scale, am, ph, samples, full, layout="contig"):
     from qucumber.observables import NeighbourInteraction, SigmaX, SigmaY, SigmaZ
 
-    case = {"kind": kind, "n": n, "h": h, "a": a, "scale": scale, "am": am, "ph": ph, "samples": samples, "full": full}
+    case = {"kind": kind, "n": n, "h": h, "a": a, "scale": scale, "am": am, "ph": ph, "samples": samples, "full": full, "layout": layout}
+    ctx.count(f"layout={layout}")
     st = build_state(kind, n, h, a, am, ph)
     B = len(samples)
     cs = list(range(0, n + 2))
@@ -138,16 +144,16 @@ def one_case(ctx, kind, n, h, a, scale, am, ph, samples, full, tag=""):
     def fresh():
         return torch.tensor(samples, dtype=torch.double).reshape(B, n)
 
-    # ---------------- implementation
+    # ---------------- implementation (the batch in the case's memory layout: contiguous / strided view / transposed)
     impl = {}
     for nm, cls in (("sigmaX", SigmaX), ("sigmaY", SigmaY), ("sigmaZ", SigmaZ)):
         for ab in (False, True):
-            t = fresh()
-            impl[(nm, ab)] = impl_apply(cls(absolute=ab), st, t) + (t.numpy().astype(int).tolist(),)
+            t, backing = make_batch(samples, n, layout)
+            impl[(nm, ab)] = impl_apply(cls(absolute=ab), st, t, backing, layout) + (t.numpy().astype(int).tolist(),)
     for c in cs:
         for per in (False, True):
-            t = fresh()
-            impl[("nb", per, c)] = impl_apply(NeighbourInteraction(periodic_bcs=per, c=c), st, t) + (t.numpy().astype(int).tolist(),)
+            t, backing = make_batch(samples, n, layout)
+            impl[("nb", per, c)] = impl_apply(NeighbourInteraction(periodic_bcs=per, c=c), st, t, backing, layout) + (t.numpy().astype(int).tolist(),)
     # importance-sampling aux points: pairs (vp, v) = (random row / flipped row, row)
     pairs = []
     for k in range(min(B, 6)):
@@ -261,17 +267,115 @@ def gen_cases(ctx, thorough):
                 else:
                     am = qc.rand_rbm_params(rng, n, h, scale)
                     ph = qc.rand_rbm_params(rng, n, h, scale) if kind == "cplx" else None
-                yield kind, n, h, a, scale, am, ph, qc.all_states(n), True
+                yield kind, n, h, a, scale, am, ph, qc.all_states(n), True, rng.choice(LAYOUTS)
                 B = rng.randrange(1, 8)
                 base = [[rng.randrange(2) for _ in range(n)] for _ in range(max(1, B - 2))]
                 batch = [list(rng.choice(base)) for _ in range(B)]  # rows repeat
-                yield kind, n, h, a, scale, am, ph, batch, False
+                yield kind, n, h, a, scale, am, ph, batch, False, rng.choice(LAYOUTS)
+
+
+# ---------------------------------------------------------------- call history on the same objects
+def gen_params(rng, kind, n, h, a, scale):
+    if kind == "dens":
+        return qc.rand_prbm_params(rng, n, h, a, scale), qc.rand_prbm_params(rng, n, h, a, scale)
+    return qc.rand_rbm_params(rng, n, h, scale), (qc.rand_rbm_params(rng, n, h, scale) if kind == "cplx" else None)
+
+
+def gen_history(rng):
+    """a sequence of evaluations made with the SAME observable objects: same state and sample tensor objects with the tensor overwritten
+    in place, then the state re-parametrised in place, then a batch of another length, then chains of other lengths (longer, shorter;
+    possibly another state class), then the first configuration again"""
+    kind = rng.choice(["pos", "cplx", "dens"])
+    n1 = rng.randrange(1, 4)
+    n2 = rng.randrange(n1 + 1, 6)
+    n3 = rng.randrange(1, n2)
+    h, a = rng.randrange(1, 4), (rng.choice([1, 2]) if kind == "dens" else 0)
+    B = rng.randrange(2, 6)
+    B2 = rng.choice([b for b in range(1, 8) if b != B])
+    mk = lambda n, k: [[rng.randrange(2) for _ in range(n)] for _ in range(k)]  # noqa: E731
+    sc = lambda: rng.choice([0.3, 1.0, 2.0])  # noqa: E731
+    P1, P2 = gen_params(rng, kind, n1, h, a, sc()), gen_params(rng, kind, n1, h, a, sc())
+    S1, S2 = mk(n1, B), mk(n1, B)
+    st = lambda k, n, P, S: {"kind": k, "n": n, "h": h, "a": (a or 1) if k == "dens" else 0, "am": P[0], "ph": P[1], "samples": S}  # noqa: E731
+    k2 = rng.choice([kind, kind, rng.choice(["pos", "cplx", "dens"])])
+    a2 = (a or 1) if k2 == "dens" else 0
+    steps = [st(kind, n1, P1, S1), st(kind, n1, P1, S2), st(kind, n1, P2, S2), st(kind, n1, P2, mk(n1, B2)),
+             st(k2, n2, gen_params(rng, k2, n2, h, a2, sc()), mk(n2, B)), st(k2, n3, gen_params(rng, k2, n3, h, a2, sc()), mk(n3, B)),
+             st(kind, n1, P1, S1)]
+    return {"hist": True, "steps": steps}
+
+
+def history_case(ctx, case):
+    """every built-in observable object is created ONCE and applied at every step; a state object / sample tensor object of a
+    matching shape is reused (parameters written with .data.copy_, samples with .copy_).  Each value is compared with the model of
+    the step's CURRENT parameters and samples (and with freshly built objects)."""
+    from qucumber.observables import NeighbourInteraction, SigmaX, SigmaY, SigmaZ
+
+    steps = case["steps"]
+    cmax = max(s["n"] for s in steps) + 1
+    objs = {}
+    for nm, cls in (("sigmaX", SigmaX), ("sigmaY", SigmaY), ("sigmaZ", SigmaZ)):
+        for ab in (False, True):
+            objs[(nm, ab)] = (cls(absolute=ab), lambda cls=cls, ab=ab: cls(absolute=ab))
+    for c in range(1, cmax + 1):
+        for per in (False, True):
+            objs[("nb", per, c)] = (NeighbourInteraction(periodic_bcs=per, c=c), lambda per=per, c=c: NeighbourInteraction(periodic_bcs=per, c=c))
+    states, tensors = {}, {}
+    ctx.case({"hist": steps}, nontrivial=True, sample={"history": [(s["kind"], s["n"], len(s["samples"])) for s in steps]})
+    ctx.count("history_case")
+    for i, s in enumerate(steps):
+        kind, n, h, a, am, ph, samples = s["kind"], s["n"], s["h"], s["a"], s["am"], s["ph"], s["samples"]
+        B = len(samples)
+        key = (kind, n, h, a)
+        if key in states:
+            st = states[key]
+            if kind == "dens":
+                qc.set_prbm(st.rbm_am, am, inplace=True); qc.set_prbm(st.rbm_ph, ph, inplace=True)
+            else:
+                qc.set_rbm(st.rbm_am, am, inplace=True)
+                if kind == "cplx":
+                    qc.set_rbm(st.rbm_ph, ph, inplace=True)
+            ctx.count("history:state_reused_in_place")
+        else:
+            st = states[key] = build_state(kind, n, h, a, am, ph)
+        if (B, n) in tensors:
+            t = tensors[(B, n)]
+            t.copy_(torch.tensor(samples, dtype=torch.double).reshape(B, n))
+            ctx.count("history:tensor_reused_in_place")
+        else:
+            t = tensors[(B, n)] = torch.tensor(samples, dtype=torch.double).reshape(B, n)
+        sub = {**case, "step": i}
+        cs = list(range(1, cmax + 1))
+        model = None
+        if ctx.driver is not None:
+            model = ctx.driver.call("c08.eval", samples=samples, cs=cs, pairs=[], **state_req(kind, n, h, a, am, ph))
+        fresh_st = build_state(kind, n, h, a, am, ph)
+        for key2, (obj, mkfresh) in objs.items():
+            vals, shape_ok, unchanged = impl_apply(obj, st, t)
+            nm = key2[0] if key2[0] != "nb" else f"neighbour(periodic={key2[1]},c={key2[2]})"
+            sub2 = {**sub, "observable": nm, "absolute": key2[1] if key2[0] != "nb" else None}
+            ctx.oracle("history: apply leaves the sample tensor unchanged (bytes)", bool(unchanged), sub2, sig=f"{kind}/{key2[0]}/no-mutation",
+                       theorem=THEOREMS["after"])
+            if model is not None:
+                if key2[0] == "nb":
+                    mk_, lvl = ("periodic" if key2[1] else "open"), "property"
+                    cmp_vals(ctx, f"history: {nm}.apply", lvl, vals, model[mk_][cs.index(key2[2])], sub2, THEOREMS[mk_],
+                             f"{kind}/neighbour/{mk_}/history")
+                else:
+                    cmp_vals(ctx, f"history: {nm}.apply(absolute={key2[1]})", "property", vals,
+                             model[key2[0]]["vals" + ("_abs" if key2[1] else "")], sub2, THEOREMS[key2[0]], f"{kind}/{key2[0]}/history")
+            # secondary (metamorphic, used by the model-free search): a fresh observable on fresh copies of the current state and samples
+            fv = impl_apply(mkfresh(), fresh_st, torch.tensor(samples, dtype=torch.double).reshape(B, n))[0]
+            ctx.oracle("history: the same observable object evaluated again == a fresh one on fresh copies of state and samples",
+                       same_values(vals, fv), sub2, detail={"reused": vals, "fresh": fv}, sig=f"{kind}/{key2[0]}/history-oracle")
 
 
 def run(ctx):
     ctx.rule = RULE
     for args in gen_cases(ctx, ctx.tier == "thorough"):
         one_case(ctx, *args)
+    for _ in range(24 if ctx.tier == "thorough" else 4):
+        history_case(ctx, gen_history(ctx.rng))
 
 
 def search(ctx):
@@ -280,9 +384,15 @@ def search(ctx):
     try:
         for args in gen_cases(ctx, True):
             one_case(ctx, *args)
+        for _ in range(24):
+            history_case(ctx, gen_history(ctx.rng))
     finally:
         ctx.driver = drv
 
 
 def replay(ctx, case):
-    one_case(ctx, case["kind"], case["n"], case["h"], case["a"], case["scale"], case["am"], case["ph"], case["samples"], case["full"])
+    if case.get("hist"):
+        history_case(ctx, {"hist": True, "steps": case["steps"]})
+        return
+    one_case(ctx, case["kind"], case["n"], case["h"], case["a"], case["scale"], case["am"], case["ph"], case["samples"], case["full"],
+             case.get("layout", "contig"))
